@@ -492,6 +492,34 @@ func deviationCases(thorough bool) []caseRec {
 		{"replace-type-makes-default-invalid", "leaf x { %s default abc; }", "type string;", "deviate replace { type int8; }", "", "error"},
 		{"unknown-target", leaf, "", "TARGET:/t:top/t:nosuch deviate not-supported;", "", "error"},
 	}
+	// deviate delete names one of several statements of the same keyword: exactly that one goes
+	m3 := []string{" must \"inner = 'a'\";", " must \"inner = 'b'\";", " must \"inner = 'c'\";"}
+	u3 := []string{" unique u1;", " unique u2;", " unique \"u1 u2\";"}
+	for _, name := range []string{"must", "unique"} {
+		set := m3
+		tmpl := cont
+		if name == "unique" {
+			set, tmpl = u3, list
+		}
+		for k := range set {
+			var rest string
+			for j, st := range set {
+				if j != k {
+					rest += st
+				}
+			}
+			cs = append(cs, devCase{fmt.Sprintf("delete-%s-%d-of-3", name, k), tmpl, strings.Join(set, ""), "deviate delete {" + set[k] + " }", rest, "ok"})
+			// two deletes in one deviation, named in reverse order
+			k2 := (k + 1) % 3
+			var left string
+			for j, st := range set {
+				if j != k && j != k2 {
+					left += st
+				}
+			}
+			cs = append(cs, devCase{fmt.Sprintf("delete-%s-%d-and-%d-of-3", name, k2, k), tmpl, strings.Join(set, ""), "deviate delete {" + set[k2] + set[k] + " }", left, "ok"})
+		}
+	}
 	if thorough {
 		cs = append(cs,
 			devCase{"add-and-replace", leaf, " units old;", "deviate add { default dv; } deviate replace { units new; }", " units new; default dv;", "ok"},
